@@ -11,6 +11,7 @@ import DispatchVerif.Core.QueueP
 import DispatchVerif.Core.DataP
 import DispatchVerif.Core.TimerP
 import DispatchVerif.Core.TimerD
+import DispatchVerif.Core.DqW
 import DispatchVerif.Core.IoP4
 import DispatchVerif.Core.IoW
 import Driver.HeapChk
@@ -262,6 +263,17 @@ def handle (line : String) : String :=
   | ["CM", t, d, i, n, p] =>
     let o := TimerP.computeMissed t.toNat! d.toNat! i.toNat! n.toNat! p.toNat!
     s!"{o.data} {o.target} {o.deadline}"
+  | ["DQ", op, st, w, a, a2] =>
+    let st := st.toNat!; let w := w.toNat!; let a := a.toNat!; let a2 := a2.toNat!
+    let b2n (b : Bool) : Nat := if b then 1 else 0
+    match op with
+    | "1" => let r := DqW.drainTryLock st w 1; s!"{r.1} {r.2}"
+    | "2" => let r := DqW.tryAcquireBarrierSync st w a; s!"{b2n r.1} {r.2}"
+    | "4" => s!"0 {DqW.reserveSyncWidth st}"
+    | "5" => let r := DqW.tryReserveSyncWidth st (a != 0); s!"{b2n r.1} {r.2}"
+    | "6" => let r := DqW.tryAcquireAsync st; s!"{b2n r.1} {r.2}"
+    | "8" => let r := DqW.drainTryUnlock st a (a2 != 0); s!"{b2n r.1} {r.2}"
+    | _ => "bad-op"
   | ["TD", t, d, i, n, p] =>
     let o := TimerP.timerData t.toNat! d.toNat! i.toNat! n.toNat! p.toNat!
     s!"{o.data} {o.target} {o.deadline}"
